@@ -10,7 +10,7 @@ The schedule of a run is `g0, g0 + p, g0 + 2p, …` with `g0 = initialRot z c st
 and `p = period c` (what `_calculate_rotation_tp` adds).
 
 DST is out of scope of the theorems: the code adds 24 h for Daily, so in a zone whose offset changes the local HH:MM
-drifts; the harness exercises such zones and reports the drift (finding F17).
+drifts; the harness exercises such zones and reports the drift (finding F19).
 
 Quirk kept by the model and visible in the statements: a time rotation that finds the current file empty does not
 rotate (`_get_file_size(...) <= 0`); the point is consumed all the same and the file keeps its earlier opening
@@ -28,24 +28,24 @@ theorem run_writes_cfg (P : Params) (z : Nat → Int) :
     simp only [writeOps, List.map_cons, run, step]
     exact (run_writes_cfg P z l _).trans (write_cfg P z w x.1 x.2)
 
-theorem run_writes_grid (z : Nat → Int) (g0 : Nat) :
+theorem run_writes_grid (P : Params) (hP : P.advancesFromSchedule = true) (z : Nat → Int) (g0 : Nat) :
     ∀ (l : List (Stmt × Nat)) (w : World) (tss : List Nat), 0 < period w.sink.cfg → w.sink.cfg.freq ≠ .disabled →
       GridInv g0 (period w.sink.cfg) tss w.sink.nextRot →
       GridInv g0 (period w.sink.cfg) ((l.map (·.2)).reverse ++ tss)
-        (run ⟨true⟩ z w (writeOps l)).sink.nextRot
+        (run P z w (writeOps l)).sink.nextRot
   | [], _, _, _, _, h => by simpa [writeOps, run] using h
   | x :: l, w, tss, hp, hf, h => by
     have h1 := gridInv_step g0 (period w.sink.cfg) hp tss w.sink.nextRot x.2 h
-    have hn : (write ⟨true⟩ z w x.1 x.2).sink.nextRot =
+    have hn : (write P z w x.1 x.2).sink.nextRot =
         if w.sink.nextRot ≤ x.2 then advance true (period w.sink.cfg) w.sink.nextRot x.2 else w.sink.nextRot := by
-      rw [write_nextRot]
+      rw [write_nextRot, hP]
       by_cases hd : w.sink.nextRot ≤ x.2
       · have : timeDue w x.2 := ⟨hf, hd⟩
         simp only [this, ↓reduceIte, hd]
       · have : ¬ timeDue w x.2 := fun hh => hd hh.2
         simp only [this, ↓reduceIte, hd]
-    have hc := write_cfg ⟨true⟩ z w x.1 x.2
-    have ih := run_writes_grid z g0 l (write ⟨true⟩ z w x.1 x.2) (x.2 :: tss) (by rw [hc]; exact hp)
+    have hc := write_cfg P z w x.1 x.2
+    have ih := run_writes_grid P hP z g0 l (write P z w x.1 x.2) (x.2 :: tss) (by rw [hc]; exact hp)
       (by rw [hc]; exact hf) (by rw [hc, hn]; exact h1)
     rw [hc] at ih
     simpa [writeOps, run, step, List.map_cons, List.reverse_cons, List.append_assoc] using ih
@@ -60,24 +60,25 @@ theorem restart_nextRot (z : Nat → Int) (fs : FS) (c : Cfg) (start : Nat) (hf 
     any timestamps, dense or with gaps of many periods): `_next_rotation_time` is a point of the schedule, lies strictly
     after every record of the run, and is the first such point (it is `g0` or within one period of some record).
     This is what the pinned `record_ts + period` broke (F9). -/
-theorem C15_grid (z : Nat → Int) (fs : FS) (c : Cfg) (start : Nat) (hc : CfgOK c) (hf : c.freq ≠ .disabled)
-    (l : List (Stmt × Nat)) :
+theorem C15_grid (P : Params) (hP : P.advancesFromSchedule = true) (z : Nat → Int) (fs : FS) (c : Cfg) (start : Nat)
+    (hc : CfgOK c) (hf : c.freq ≠ .disabled) (l : List (Stmt × Nat)) :
     GridInv (initialRot z c start) (period c) (l.map (·.2))
-      (run ⟨true⟩ z (restart z fs c start) (writeOps l)).sink.nextRot := by
+      (run P z (restart z fs c start) (writeOps l)).sink.nextRot := by
   have hp := period_pos c hc hf
   have h0 : GridInv (initialRot z c start) (period c) [] (restart z fs c start).sink.nextRot := by
     rw [restart_nextRot z fs c start hf]
     exact ⟨⟨0, by simp⟩, by simp, Or.inl rfl⟩
-  have h := run_writes_grid z (initialRot z c start) l (restart z fs c start) [] hp hf h0
+  have h := run_writes_grid P hP z (initialRot z c start) l (restart z fs c start) [] hp hf h0
   simp only [restart_cfg, List.append_nil] at h
   exact ⟨h.onGrid, fun t ht => h.after t (List.mem_reverse.mpr ht),
     h.first.imp id (fun ⟨t, ht, hle⟩ => ⟨t, List.mem_reverse.mp ht, hle⟩)⟩
 
 /-- … and it is the *least* point of the schedule after the records: any `g0 + k·p` beyond every record is `≥` it. -/
-theorem C15_grid_least (z : Nat → Int) (fs : FS) (c : Cfg) (start : Nat) (hc : CfgOK c) (hf : c.freq ≠ .disabled)
+theorem C15_grid_least (P : Params) (hP : P.advancesFromSchedule = true) (z : Nat → Int) (fs : FS) (c : Cfg) (start : Nat)
+    (hc : CfgOK c) (hf : c.freq ≠ .disabled)
     (l : List (Stmt × Nat)) (k : Nat) (hk : ∀ t ∈ l.map (·.2), t < initialRot z c start + k * period c) :
-    (run ⟨true⟩ z (restart z fs c start) (writeOps l)).sink.nextRot ≤ initialRot z c start + k * period c :=
-  gridInv_least _ _ (period_pos c hc hf) _ _ (C15_grid z fs c start hc hf l) k hk
+    (run P z (restart z fs c start) (writeOps l)).sink.nextRot ≤ initialRot z c start + k * period c :=
+  gridInv_least _ _ (period_pos c hc hf) _ _ (C15_grid P hP z fs c start hc hf l) k hk
 
 /-- **First point of the schedule** (constant offset `off`; `t` = start instant in whole seconds, `s` = the point in
     whole seconds): strictly after `t`; Minutely: the next minute boundary of local time; Hourly: the next hour
@@ -106,11 +107,11 @@ theorem C15_separates (P : Params) (z : Nat → Int) (w : World) (st : Stmt) (ts
     ∃ pre, (write P z w st ts).fs.get curName = some (pre ++ [st]) ∧ bytes pre = 0 := by
   obtain ⟨cont, hc, _⟩ := h
   have hs := prepare_due P z w st.size ts (Or.inl hdue)
-  rcases rotate_cur z w ts with h1 | ⟨h1, _, _, _, _⟩
+  rcases rotate_cur P z w ts with h1 | ⟨h1, _, _, _, _⟩
   · have hb : bytes cont = 0 := by
       by_cases hb : bytes cont = 0
       · exact hb
-      · have := rotate_eq z w ts cont hns hc hb
+      · have := rotate_eq P z w ts cont hns hc hb
         rw [h1] at this
         have h2 := congrArg (fun x => x.fs.get curName) this
         simp only [FS.get_put, ↓reduceIte, hc, Option.some.injEq] at h2
@@ -129,9 +130,9 @@ theorem C15_shares (P : Params) (z : Nat → Int) (w : World) (st : Stmt) (ts : 
     triggering record's timestamp after a rotation that takes place; (2) the rotation gives the file that was current
     the suffix computed from that instant (`%Y%m%d` = civil day, `%Y%m%d_%H%M%S` = civil second, none for Index) and the
     first index of the scheme; (3) later rotations never change the suffix of a dated file (only its index). -/
-theorem C15_suffix_of_opening_instant (z : Nat → Int) :
+theorem C15_suffix_of_opening_instant (P : Params) (z : Nat → Int) :
     (∀ fs c start, (restart z fs c start).sink.openTs = start) ∧
-    (∀ w ts, rotate z w ts = w ∨ (rotate z w ts).sink.openTs = ts) ∧
+    (∀ w ts, rotate P z w ts = w ∨ (rotate P z w ts).sink.openTs = ts) ∧
     (∀ sch openTs, entryAfter sch (newSuffix z sch openTs) curInfo =
         ⟨newSuffix z sch openTs, if sch = .index then 1 else 0⟩ ∧
       moveOf sch (newSuffix z sch openTs) curInfo =
@@ -139,7 +140,7 @@ theorem C15_suffix_of_opening_instant (z : Nat → Int) :
     (∀ sch sfx (e : FileInfo), sch ≠ .index → e.sfx ≠ none → (entryAfter sch sfx e).sfx = e.sfx) := by
   refine ⟨fun _ _ _ => rfl, ?_, ?_, ?_⟩
   · intro w ts
-    rcases rotate_cur z w ts with h | ⟨_, _, h, _⟩
+    rcases rotate_cur P z w ts with h | ⟨_, _, h, _⟩
     · exact Or.inl h
     · exact Or.inr h
   · intro sch openTs
@@ -167,7 +168,7 @@ def f9Cfg : Cfg := { freq := .daily, dailyH := 2, dailyM := 0, append := false }
 /-- 2023-11-14 22:13:20 GMT -/
 def f9Start : Nat := 1700000000 * NS
 def f9Run (adv : Bool) : World :=
-  run ⟨adv⟩ zGmt (restart zGmt [] f9Cfg f9Start)
+  run { advancesFromSchedule := adv } zGmt (restart zGmt [] f9Cfg f9Start)
     [.write ⟨1, 8⟩ (f9Start + 9 * 3600 * NS), .write ⟨2, 8⟩ (f9Start + 29 * 3600 * NS)]
 
 /-- **F9.** Start 22:13, daily at 02:00 GMT, records at +9 h (07:13 next day) and +29 h (03:13 the day after). With the
